@@ -27,6 +27,7 @@ def parseE1 : String → Option (E F)
   | "sqrt" => some (.sqrt (.var 0))
   -- `x ** -0.5`: scalar.py:1522 `self.sqrt().reciprocal()`
   | "pownh" => some (.recip (.sqrt (.var 0)))
+  | "sgn" => some (.sgn (.var 0)) | "isneg" => some (.isneg (.var 0))
   | _ => none
 
 structure Ctx where
@@ -81,6 +82,12 @@ partial def evalP (c : Ctx) : Sx → Option (Val F)
   | .list [.atom "ucross", p, q] => do some (Val.ucross (← evalP c p) (← evalP c q))
   | .list [.atom "withnorm", p, n] => do some (Val.withNorm (← evalP c p) (← evalP c n))
   | .list [.atom "qrecip", p] => do some (Val.qrecip (← evalP c p))
+  | .list [.atom "fromrotation", a, v] => do some (Val.fromRotation (← evalP c a) (← evalP c v))
+  | .list [.atom "torotation0", q] => do some (Val.toRotation0 (← evalP c q))
+  | .list [.atom "torotation1", q] => do some (Val.toRotation1 (← evalP c q))
+  | .list [.atom "sep", p, q] => do some (Val.sep (← evalP c p) (← evalP c q))
+  | .list [.atom "twovec", a1, a2, p, q] => do some (Val.twovec (← a1.toNat?) (← a2.toNat?) (← evalP c p) (← evalP c q))
+  | .list [.atom "tomatrix3", q] => do some (Val.toMatrix3 (← evalP c q))
   | _ => none
 
 def outBits (l : List F) : Sx := .list (l.map fun x => Sx.ofNat x.toBits.toNat)
